@@ -20,7 +20,7 @@ TRUSTED = [
 ]
 ASSUMPTIONS = [
     "li constants in [-2^33, 2^33] (every low-12/high-20 carry case, negative and over-wide constants)",
-    "element values in [-2^33, 2^33]; .zero n with n in [0, 6]; element indices in [0, 7]",
+    "element values in [-2^33, 2^33]; .zero n with n in [0, 6]; element indices in [0, 7] for the layout harness and in [0, 2^18] for the far-element harness (addresses up to 2^14 + 2^20: every low-12-bit pattern and lui carry of the address split)",
     "declaration sequences: all sequences of <= 2 (quick) / 3 (thorough) declarations over {.byte x1, .byte x3, .half x2, .word x1, .word x2, .string len 0/1/5, .zero n}",
     "literals are spelled in decimal (and 0x for the documented example); other spellings are covered lexically by C04/C15",
 ]
@@ -95,6 +95,68 @@ def memory_bytes(sim):
     lower = sim.state.memory
     lower = getattr(lower, "memory", lower)
     return {k: val(v) for k, v in lower.memory_file.items()}
+
+
+def symbolic_memory_after_load(e, sim):
+    """replace the loaded (real dict) data memory by a symbolic store with the same contents, so
+    that the program can access symbolic addresses"""
+    from symx.containers import Store, SymMem, SymRange
+    from symx.state import fx
+
+    lower = getattr(sim.state.memory, "memory", sim.state.memory)
+    st = Store(e, "Mloaded", 32, 8, presence=True, zero_init=True)
+    for k, v in lower.memory_file.items():
+        st.set(k, val(v))
+    lower.memory_file = SymMem(e, st, fx().UInt8, total=False)
+    if e.mode == "sym":
+        lower.address_range = SymRange(lower.address_range.start, lower.address_range.stop)
+    return st
+
+
+def h_far(e, kind, n, access):
+    """element access far into an array: name[i] with i symbolic in [0, 2^18] (all carry cases of
+    the lui/addi address split), executed on a symbolic copy of the loaded memory"""
+    from symx.state import mk_riscv
+    from symx.ops import ite
+
+    T = Text(e)
+    items = [("data", "pad", "byte", [e.int("pad", 0, 255)]), ("data", "arr", kind, [e.int("d%d" % j, -(2**33), 2**33) for j in range(n)])]
+    idx = e.int("idx", 0, 2**18)
+    if access == "la":
+        items.append(("ins", None, "la", ("x7", "arr", idx)))
+    elif access in ("lw", "lb", "lhu"):
+        items.append(("ins", None, access, ("var", "x7", "arr", idx)))
+    else:
+        items.append(("ins", None, access, ("var", "x9", "arr", idx, "x7")))
+    c0 = mk_riscv(e, mem="empty")
+    sim = c0.sim
+    sim.load_program(asm.render(items, T))
+    exp, labels, var, mem = asm.expand(items, e)
+    asm.claim_program(e, sim, exp)
+    st = symbolic_memory_after_load(e, sim)
+    base, size = var["arr"]
+    addr = zx(base + size * idx, 32)
+    x9 = c0.regs0.get(9)
+    run_to_end(sim)
+    e.observe("x7", c0.reg(7))
+    e.claim("terminates", sim.is_done())
+    if access == "la":
+        e.claim_eq("la-yields-element-address", c0.reg(7), addr)
+    elif access in ("lw", "lb", "lhu"):
+        nb, signed = {"lw": (4, False), "lb": (1, True), "lhu": (2, False)}[access]
+        v = 0
+        for i in range(nb):
+            b = 0
+            for k2, bv in mem.items():
+                b = ite(cond("==", zx(addr + i, 32), k2), bv, b)
+            v = v | (b << (8 * i))
+        e.claim_eq("load-by-name-yields-element", c0.reg(7), zx(sx(v, 8 * nb), 32) if signed else v)
+    else:
+        nb = {"sw": 4, "sh": 2, "sb": 1}[access]
+        for i in range(nb):
+            e.claim_eq("store-by-name-byte-%d" % i, st.abstract(zx(addr + i, 32)), (x9 >> (8 * i)) & 0xFF)
+        e.claim_eq("store-by-name-address-register", c0.reg(7), addr)
+    e.claim("canary:far", cond("==", c0.reg(7), zx(addr + 1, 32)) if access in ("la", "sw", "sb", "sh") else False)
 
 
 def h_layout(e, decls, data_first, access):
@@ -233,7 +295,7 @@ def h_example(e, data_first):
     e.claim("canary:example", r[6] == 0)
 
 
-HARNESSES = {"li": h_li, "layout": h_layout, "example": h_example}
+HARNESSES = {"li": h_li, "layout": h_layout, "example": h_example, "far": h_far}
 
 
 def jobs(tier, seed):
@@ -258,6 +320,9 @@ def jobs(tier, seed):
     for sq in (["z"], ["z", "w1"], ["b3", "z"], ["w2"], ["h2"], ["b3"], ["s5"]):
         for acc in accesses:
             out.append({"label": "access-%s-%s" % (".".join(sq), acc), "harness": "layout", "args": {"decls": sq, "data_first": True, "access": acc}, "cost": 6, "validate_every": 2})
+    for kind, n in (("word", 2), ("byte", 3), ("half", 1)):
+        for acc in ("la", "lw", "lb", "lhu", "sw", "sb", "sh"):
+            out.append({"label": "far-%s%d-%s" % (kind, n, acc), "harness": "far", "args": {"kind": kind, "n": n, "access": acc}, "cost": 6, "validate_every": 1})
     for df in (True, False):
         out.append({"label": "example-%s" % ("df" if df else "tf"), "harness": "example", "args": {"data_first": df}, "cost": 1})
     return out
